@@ -171,9 +171,6 @@ class C19(Property):
         except ImportError:  # pragma: no cover (python < 3.11)
             import sre_parse as sp
             import sre_constants as sc
-        pat = strutils._line_ending_re
-        tree = sp.parse(pat.pattern, pat.flags)
-
         def expand_seq(seq):
             alts = [[]]
             for op, av in seq:
@@ -214,7 +211,19 @@ class C19(Property):
                 return out
             raise ValueError('unsupported regex node %r in _line_ending_re' % (op,))
 
-        alts = expand_seq(tree)
+        def from_regex():
+            pat = strutils._line_ending_re
+            tree = sp.parse(pat.pattern, pat.flags)
+            return expand_seq(tree)
+
+        try:
+            alts = from_regex()
+        except Exception as e:
+            # iter_splitlines no longer scans with a regex this translator can read (no _line_ending_re, a construct
+            # outside literal / class / alternation / x? ...): read the table off the BEHAVIOUR of the function on the
+            # finite alphabet the theorems quantify over - every single character, then every pair of break characters
+            print('note: _line_ending_re not readable (%r): line-ending table taken from the behaviour of iter_splitlines' % (e,))
+            alts = self.table_from_behaviour()
         self._alts = alts
         body = ', '.join('[' + ', '.join(str(c) for c in a) + ']' for a in alts)
         src = ('/- GENERATED by harness/bv/props/c19.py (regen) from the current boltons source - do not edit.\n'
@@ -337,6 +346,21 @@ class C19(Property):
             if saved_local is saved:
                 jsonutils.loads = saved
         return lset, rset
+
+    @staticmethod
+    def table_from_behaviour():
+        """the separators of iter_splitlines as its behaviour shows them: a character c is a line ending when
+        'a'+c+'b' comes back as ['a', 'b']; a pair of line-ending characters is ONE line ending when 'a'+x+y+'b' still
+        comes back as ['a', 'b'] (two line endings give ['a', '', 'b']); pairs first, as an alternation must try them"""
+        from boltons.strutils import iter_splitlines
+        with time_limit(60):
+            singles = [c for c in range(0x110000)
+                       if not 0xd800 <= c < 0xe000 and list(iter_splitlines('a' + chr(c) + 'b')) == ['a', 'b']]
+            if len(singles) > 64:
+                raise ValueError('iter_splitlines splits at %d different characters' % len(singles))
+            pairs = [[x, y] for x in singles for y in singles
+                     if list(iter_splitlines('a' + chr(x) + chr(y) + 'b')) == ['a', 'b']]
+        return pairs + [[c] for c in singles]
 
     def extra_checks(self):
         """the table the driver was compiled with is the one the translator just read from the source"""
